@@ -51,7 +51,7 @@ def run(ck: Check):
     ck.rule(
         "KSWIN: streams built so that all sub-samples agree (disjoint ranges after a shift, identical multisets, constants) plus random ones; at every full-window step the window is "
         "compared with the last min_num_instances inputs, the verdict with the exact KS p-value of the RECORDED draw, and with the bounds valid for every sub-sample "
-        "(p(D_lo) <= alpha forces an alarm, p(D_hi) > alpha forbids one); same-seed runs must agree. STEPD: all 0/1 streams of length 10 (12 thorough) for min in {1,2,3} and random regime-shift streams; verdict vs "
+        "(p(D_lo) <= alpha forces an alarm, p(D_hi) > alpha forbids one); same-seed runs must agree (seed 0 included); a third of the KSWIN and STEPD histories start with an earlier concept followed by reset(), the clauses being checked on everything after it. STEPD: all 0/1 streams of length 10 (12 thorough) for min in {1,2,3} and random regime-shift streams; verdict vs "
         "the one-sided p-value of the continuity-corrected two-proportion statistic recomputed from the raw stream; non-trivial = some alarm"
     )
     cases, impl = [], []
@@ -61,11 +61,23 @@ def run(ck: Check):
         mn, nt = cfg["min_num_instances"], cfg["num_test_instances"]
         n = mn + rng.choice([0, 1, 5, 20, 40])
         xs = kswin_stream(rng, cfg, n)
+        if rng.random() < 0.15:
+            cfg["seed"] = 0  # a legal seed like any other
+        # a third of the histories start with an earlier concept followed by reset(): the clauses are then
+        # checked on everything after the reset (window = last min_num_instances values SINCE the reset)
+        pre = []
+        if rng.random() < 0.35:
+            pre = kswin_stream(rng, cfg, rng.choice([1, mn - 1, mn, mn + 3, 2 * mn + 5]))
+        full_ops = (pre + ["R"] if pre else []) + xs
         wins = []
-        out, exc, samples = run_kswin(KS, cfg, xs, probe=lambda d: list(d.window), probes=wins)
+        out, exc, samples = run_kswin(KS, cfg, full_ops, probe=lambda d: list(d.window), probes=wins)
         if exc is not None:
-            ck.violation(dict(clause="raises", detector="KSWIN", error=type(exc).__name__), dict(config=cfg, stream=xs[: len(out) + 1], error=repr(exc)))
+            ck.violation(dict(clause="raises", detector="KSWIN", error=type(exc).__name__), dict(config=cfg, stream=full_ops[: len(out) + 1], error=repr(exc)))
             continue
+        full_out, full_samples = out, samples
+        if pre:
+            out, wins, samples = out[len(pre) + 1 :], wins[len(pre) + 1 :], samples[len(pre) :]
+            ck.count("kswin_histories_with_reset")
         forced = 0
         ok = True
         for t, (o, w, smp) in enumerate(zip(out, wins, samples)):
@@ -112,13 +124,13 @@ def run(ck: Check):
         if not ok:
             continue
         # same seed => same run
-        out2, _, samples2 = run_kswin(KS, cfg, xs)
-        if out2 != out or samples2 != samples:
-            ck.violation(dict(clause="kswin-seed", detector="KSWIN"), dict(what="two runs from the same seed differ", config=cfg, stream=xs))
+        out2, _, samples2 = run_kswin(KS, cfg, full_ops)
+        if out2 != full_out or samples2 != full_samples:
+            ck.violation(dict(clause="kswin-seed", detector="KSWIN", seed_zero=cfg["seed"] == 0), dict(what="two runs from the same seed differ", config=cfg, stream=full_ops))
             continue
         if mn <= 20:
-            cases.append((KS, cfg, xs, samples))
-            impl.append(out)
+            cases.append((KS, cfg, full_ops, full_samples))
+            impl.append(full_out)
     # ------------------------------------------------------------------ STEPD
     from scipy.stats import norm
 
@@ -167,10 +179,21 @@ def run(ck: Check):
     for _ in range(60 if not thorough else 500):
         cfg = SP.gen_cfg(rng)
         xs = gen_stream01(rng, rng.choice([20, 80, 200]))
-        out, exc, _ = run_impl(SP, cfg, xs)
-        ck.case(dict(detector="STEPD", config=cfg, n=len(xs), head=xs[:10]), nontrivial=any(o[0] or o[1] for o in out), key=repr((cfg, xs)))
-        if stepd_monitor(cfg, xs, out) and len(xs) <= 80:
-            cases.append((SP, cfg, xs, None))
+        pre = []
+        if rng.random() < 0.4:
+            # an earlier concept whose length is NOT a multiple of the window, then reset(): the accuracy
+            # window must restart empty and in phase
+            mn = cfg["min_num_instances"]
+            pre = gen_stream01(rng, rng.choice([1, mn + 1, 2 * mn + 1, 3 * mn + mn // 2 + 1, 75]))
+        ops = (pre + ["R"] if pre else []) + xs
+        out, exc, _ = run_impl(SP, cfg, ops)
+        if exc is not None:
+            ck.violation(dict(clause="raises", detector="STEPD", error=type(exc).__name__), dict(config=cfg, ops=ops[: len(out) + 1], error=repr(exc)))
+            continue
+        post = out[len(pre) + 1 :] if pre else out
+        ck.case(dict(detector="STEPD", config=cfg, n=len(xs), prefix_then_reset=len(pre), head=xs[:10]), nontrivial=any(o[0] or o[1] for o in post), key=repr((cfg, ops)))
+        if stepd_monitor(cfg, xs, post) and len(ops) <= 120:
+            cases.append((SP, cfg, ops, None))
             impl.append(out)
     models = run_models("C06", cases, shard=30)
     corr_compare(ck, "C06", cases, impl, models)
